@@ -48,6 +48,23 @@ type Trace struct {
 	w     *bufio.Writer
 	Cases int
 	Ops   int
+	path  string
+}
+
+// Mark / Since: the lines written to the trace since a mark (flushes the writer).
+func (t *Trace) Mark() int64 {
+	t.w.Flush()
+	st, _ := t.f.Stat()
+	return st.Size()
+}
+
+func (t *Trace) Since(mark int64) []string {
+	t.w.Flush()
+	b, err := os.ReadFile(t.path)
+	if err != nil || int64(len(b)) < mark {
+		return nil
+	}
+	return strings.Split(strings.TrimRight(string(b[mark:]), "\n"), "\n")
 }
 
 func NewTrace(path string) *Trace {
@@ -55,7 +72,7 @@ func NewTrace(path string) *Trace {
 	if err != nil {
 		panic(err)
 	}
-	return &Trace{f: f, w: bufio.NewWriterSize(f, 1<<20)}
+	return &Trace{f: f, w: bufio.NewWriterSize(f, 1<<20), path: path}
 }
 func (t *Trace) Case(id int) { fmt.Fprintf(t.w, "case %d\n", id); t.Cases++ }
 func (t *Trace) Op(format string, a ...interface{}) {
